@@ -111,11 +111,16 @@ impl Texture {
 
         match header.format {
             TextureFormat::B4G4R4A4 => {
-                dst =
-                    vec![
-                        0u8;
-                        header.width as usize * header.height as usize * header.depth as usize * 4
-                    ];
+                let pixels = header.width as usize * header.height as usize;
+                let dst_len = pixels * header.depth as usize * 4;
+
+                // 2 bytes are read and 4 bytes are written per pixel: reject a payload that is
+                // too short (or a zero depth) before allocating the output
+                if src.len() < dst_len / 2 || src.len() < pixels * 2 || dst_len < pixels * 4 {
+                    return None;
+                }
+
+                dst = vec![0u8; dst_len];
 
                 let mut offset = 0;
                 let mut dst_offset = 0;
@@ -138,11 +143,15 @@ impl Texture {
                 }
             }
             TextureFormat::B8G8R8A8 => {
-                dst =
-                    vec![
-                        0u8;
-                        header.width as usize * header.height as usize * header.depth as usize * 4
-                    ];
+                let dst_len =
+                    header.width as usize * header.height as usize * header.depth as usize * 4;
+
+                // reject a payload that is too short before allocating the output
+                if src.len() < dst_len {
+                    return None;
+                }
+
+                dst = vec![0u8; dst_len];
 
                 let mut offset = 0;
 
@@ -165,24 +174,27 @@ impl Texture {
                     &src,
                     header.width as usize,
                     header.height as usize * header.depth as usize,
+                    8,
                     decode_bc1,
-                );
+                )?;
             }
             TextureFormat::BC3 => {
                 dst = Texture::decode(
                     &src,
                     header.width as usize,
                     header.height as usize * header.depth as usize,
+                    16,
                     decode_bc3,
-                );
+                )?;
             }
             TextureFormat::BC5 => {
                 dst = Texture::decode(
                     &src,
                     header.width as usize,
                     header.height as usize * header.depth as usize,
+                    16,
                     decode_bc5,
-                );
+                )?;
             }
         }
 
@@ -199,17 +211,31 @@ impl Texture {
         })
     }
 
-    fn decode(src: &[u8], width: usize, height: usize, decode_func: DecodeFunction) -> Vec<u8> {
-        let mut image: Vec<u32> = vec![0; width * height];
-        decode_func(src, width, height, &mut image).unwrap();
+    fn decode(
+        src: &[u8],
+        width: usize,
+        height: usize,
+        block_size: usize,
+        decode_func: DecodeFunction,
+    ) -> Option<Vec<u8>> {
+        // reject a payload that does not hold every 4x4 block before allocating the image
+        let blocks = width.div_ceil(4).checked_mul(height.div_ceil(4))?;
+        if src.len() < blocks.checked_mul(block_size)? {
+            return None;
+        }
 
-        image
-            .iter()
-            .flat_map(|x| {
-                let v = x.to_le_bytes();
-                [v[2], v[1], v[0], v[3]]
-            })
-            .collect::<Vec<u8>>()
+        let mut image: Vec<u32> = vec![0; width.checked_mul(height)?];
+        decode_func(src, width, height, &mut image).ok()?;
+
+        Some(
+            image
+                .iter()
+                .flat_map(|x| {
+                    let v = x.to_le_bytes();
+                    [v[2], v[1], v[0], v[3]]
+                })
+                .collect::<Vec<u8>>(),
+        )
     }
 }
 
